@@ -1,7 +1,7 @@
 #!/bin/sh
 # Applies every seeded change (seeded/*/patch.diff) in turn to a scratch worktree of /repo, runs the quick tier of the
 # properties named in its props.txt against that worktree (VERIF_REPO), and writes seeded/SWEEP.txt.  /repo is not touched.
-cd /verif
+cd "$(dirname "$0")/.." || exit 2   # location independent: works from a snapshot of /verif (vp run)
 W=/tmp/sweeprepo.$$; git -C /repo worktree add -q --detach $W HEAD || exit 2
 ONLY=$1   # optional: only seeded changes whose directory name contains this string (result in seeded/SWEEP.part.txt)
 final=seeded/SWEEP.txt; [ -n "$ONLY" ] && final=seeded/SWEEP.part.txt
